@@ -62,6 +62,17 @@ Definition gen (recv : val Z) (m : ident) (args : list (val Z)) : outcome :=
   | RPanic r => OPanic r
   | _ => OHang
   end.
+Definition genx (ext : ident -> ident -> val Z -> list (val Z) -> option (val Z)) (recv : val Z) (m : ident)
+           (args : list (val Z)) : outcome :=
+  match call_at Z 0 ext prog sweep_fuel recv m args with
+  | ROk r => ORet r
+  | RPanic r => OPanic r
+  | _ => OHang
+  end.
+Definition cmpx ext (m : ident) (recv : val Z) (args : list (val Z)) (model : outcome) : list disagreement :=
+  let g := genx ext recv m args in
+  if outcome_eqb g model then []
+  else [{| d_method := m; d_recv := recv; d_args := args; d_model := model; d_generated := g |}].
 Definition cmp (m : ident) (recv : val Z) (args : list (val Z)) (model : outcome) : list disagreement :=
   let g := gen recv m args in
   if outcome_eqb g model then []
@@ -225,3 +236,29 @@ Definition sweep_stack_push_pop := flat_map (fun s =>
 Definition sweeps_C13 : list disagreement :=
   sweep_stack_AddValue ++ sweep_stack_RemoveTop ++ sweep_stack_RemoveAll ++ sweep_stack_GetCapacity ++
   sweep_stack_GetSize ++ sweep_stack_IsEmpty ++ sweep_stack_AsArray ++ sweep_stack_push_pop ++ sweeps_seq.
+
+(* ---------- C02: collection/set.go (the binary search and what rests on it) ---------- *)
+(* rankers: the order of Z, its reverse, and three inconsistent ones (the search must terminate with a slot in
+   0..size for EVERY ranker: C02_search_terminates_for_every_ranker) *)
+Definition rankers : list (Z -> Z -> comparison) :=
+  [Z.compare; (fun a b => Z.compare b a); (fun _ _ => Gt); (fun _ _ => Lt); (fun a b => if Z.even (a + b) then Lt else Gt)].
+Definition setv (l : list Z) : val Z := set_val VNil VNil l.
+Definition probes : list Z := [5; 11; 16; 22; 33; 40; 55; 60].
+Definition sweep_set_findIndex := flat_map (fun rk => flat_map (fun l => flat_map (fun x =>
+  cmpx (rank_ext rk) id_findIndex (setv l) [VElem x]
+       (of_out (setv l) (fun r => ORet (VTuple [VInt (Z.of_nat (fst r)); VBool (snd r)], setv l)) (find_index 0 rk l x))) probes) lists) rankers.
+Definition sweep_set_AddValue := flat_map (fun rk => flat_map (fun l => flat_map (fun x =>
+  cmpx (rank_ext rk) id_AddValue (setv l) [VElem x]
+       (of_out (setv l) (fun l' => ret_unit (setv l')) (set_add 0 rk l x))) probes) lists) rankers.
+Definition sweep_set_RemoveValue := flat_map (fun rk => flat_map (fun l => flat_map (fun x =>
+  cmpx (rank_ext rk) id_RemoveValue (setv l) [VElem x]
+       (of_out (setv l) (fun l' => ret_unit (setv l')) (set_remove 0 rk l x))) probes) lists) rankers.
+Definition sweep_set_ContainsValue := flat_map (fun rk => flat_map (fun l => flat_map (fun x =>
+  cmpx (rank_ext rk) id_ContainsValue (setv l) [VElem x]
+       (of_out (setv l) (fun b => ORet (VBool b, setv l)) (set_contains 0 rk l x))) probes) lists) rankers.
+Definition sweep_set_GetIndex := flat_map (fun rk => flat_map (fun l => flat_map (fun x =>
+  cmpx (rank_ext rk) id_GetIndex (setv l) [VElem x]
+       (of_out (setv l) (fun k => ORet (VInt (Z.of_nat k), setv l)) (set_get_index 0 rk l x))) probes) lists) rankers.
+Definition sweeps_C02 : list disagreement :=
+  sweep_set_findIndex ++ sweep_set_AddValue ++ sweep_set_RemoveValue ++ sweep_set_ContainsValue ++ sweep_set_GetIndex ++
+  sweeps_seq.
